@@ -24,7 +24,7 @@ S = Suite(
     what="save_footprints_to_netcdf -> load_footprints_from_netcdf on synthetic and "
          "solver-produced multi-tower, multi-step result sets",
     bound="towers 1..4 x steps 1..4 x {2-D, 3-D (2..4 levels)} x grids 3..9 cells per axis "
-          "(nx != ny) x {float64, float32, mixed (first result float32, later ones float64) fields} x {str, int timestamps} x {ustar, z0, both}; "
+          "(nx != ny) x {ascending, descending, rotated output heights (3-D)} x {float64, float32, mixed (first result float32, later ones float64) fields} x {str, int timestamps} x {ustar, z0, both}; "
           "values: normal*10^k, negatives, +-0.0, denormals, +-1e300, float max/min; NaN/inf "
           "fields, duplicate timestamps and result orders other than config.towers not examined",
     rule="bit equality (uint64 view of float64) of every slice; exact equality of coordinates, "
@@ -210,7 +210,7 @@ def _check(results, cfg, tag):
 
 
 @S.kind("synthetic")
-def synthetic(n_towers, n_time, dim, nx, ny, nz_out, dtype, tstype, forcing, seed):
+def synthetic(n_towers, n_time, dim, nx, ny, nz_out, dtype, tstype, forcing, seed, zorder="asc"):
     import numpy as np
     rs = np.random.RandomState(seed)
     cfg, met = _config(n_towers, n_time, nx, ny, forcing, tstype, rs)
@@ -218,6 +218,10 @@ def synthetic(n_towers, n_time, dim, nx, ny, nz_out, dtype, tstype, forcing, see
     y = np.linspace(0, cfg.domain.ymax, ny, endpoint=False)
     results = {}
     zl = np.cumsum(rs.uniform(0.1, 2.0, nz_out))      # output heights, common to all results
+    if zorder == "desc":                               # levels as requested by the user: any order (C10)
+        zl = zl[::-1].copy()
+    elif zorder == "perm" and nz_out >= 3:
+        zl = np.roll(zl, 1)
     for ti, tw in enumerate(cfg.towers):
         lst = []
         for t in range(n_time):
@@ -289,7 +293,7 @@ def generate(tier, rng):
                 dtype = "float32" if (k + rep) % 8 == 5 else ("mixed" if (k + rep) % 8 == 2 else "float64")
             yield "synthetic", dict(n_towers=nt, n_time=ns, dim=dim, nx=nx, ny=ny,
                                     nz_out=rng.randint(2, 4), dtype=dtype, tstype=tstype,
-                                    forcing=forcing, seed=rng.randrange(2 ** 31))
+                                    forcing=forcing, seed=rng.randrange(2 ** 31), zorder=("asc", "desc", "perm")[k % 3] if dim == 3 else "asc")
     sol = [(2, 2, 2, "z0", "str")] if tier == "quick" else \
         [(2, 2, 2, "z0", "str"), (1, 3, 3, "ustar", "none"), (3, 1, 2, "ustar", "str"),
          (2, 3, 3, "z0", "none")]
